@@ -30,9 +30,20 @@ import (
 	"verifharness/scanstack"
 )
 
-// relayerMasks: the fault positions of every relayer of a faulty-relayer case; relayer 0 has none.
+// relayerMasks: the fault positions of every relayer of a faulty-relayer case; relayer 0 has none, nor have
+// the relayers with a latency script (latency.go), which come last.
 func relayerMasks(c Case) [][]int {
-	return append([][]int{nil}, c.Masks...)
+	ms := append([][]int{nil}, c.Masks...)
+	for range c.Lat {
+		ms = append(ms, nil)
+	}
+	return ms
+}
+
+// relayerLats: per relayer its latency script (nil: every look-up is answered at once).
+func relayerLats(c Case) [][]int {
+	ls := make([][]int, 1+len(c.Masks))
+	return append(ls, c.Lat...)
 }
 
 func failSet(mask []int) map[int]bool {
@@ -78,11 +89,20 @@ func (g *gate) collect() ([]SessObs, string) {
 	return run, g.note
 }
 
+// runWithin runs f (a call of the real Execute) in a goroutine of its own; a panic of it (conc re-raises the
+// panic of a batch goroutine from Execute) is re-raised in the caller's goroutine, where vgen / the prefetch
+// worker attributes it to the case.
 func runWithin(what string, f func() error) {
-	done := make(chan error, 1)
-	go func() { done <- f() }()
+	done := make(chan interface{}, 1)
+	go func() {
+		defer func() { done <- recover() }()
+		_ = f()
+	}()
 	select {
-	case <-done:
+	case p := <-done:
+		if p != nil {
+			panic(p)
+		}
 	case <-time.After(120 * time.Second):
 		panic("C19 runner: " + what + " did not return")
 	}
@@ -90,12 +110,19 @@ func runWithin(what string, f func() error) {
 
 // ---- EVM ------------------------------------------------------------------------------------------------
 
-func evmFaultyRelayer(c Case, mask []int) ([]SessObs, string) {
+func evmFaultyRelayer(c Case, mask []int, lat []int) ([]SessObs, string) {
+	script := newLatScript(lat) // nil on the counting instance below: it is built first
+	first := true
 	mkExec := func() (*evmexec.Executor, *fk.Comm, *fk.Chain, []*proposal.Proposal) {
 		ps, chain := sessProposals(c)
 		chain.FailQuery = failSet(mask)
 		host, cm, fetcher, coord := newCoordinator()
-		return evmexec.NewExecutor(host, cm, coord, fk.EvmBridge{Chain: chain}, fetcher, &sync.RWMutex{}, c.Cap, c.Tg), cm, chain, ps
+		var bridge evmexec.BridgeContract = fk.EvmBridge{Chain: chain}
+		if !first && script != nil {
+			bridge = latEvmBridge{EvmBridge: fk.EvmBridge{Chain: chain}, lat: script}
+		}
+		first = false
+		return evmexec.NewExecutor(host, cm, coord, bridge, fetcher, &sync.RWMutex{}, c.Cap, c.Tg), cm, chain, ps
 	}
 	// how many batch goroutines this relayer's Execute will start: its own proposalBatches under the
 	// same faults (add-only hook), on a separate instance
@@ -121,8 +148,9 @@ func evmFaultyRelayer(c Case, mask []int) ([]SessObs, string) {
 
 func runSessF(c Case) Obs {
 	var o Obs
-	for _, mask := range relayerMasks(c) {
-		run, note := evmFaultyRelayer(c, mask)
+	lats := relayerLats(c)
+	for k, mask := range relayerMasks(c) {
+		run, note := evmFaultyRelayer(c, mask, lats[k])
 		o.FRuns = append(o.FRuns, run)
 		o.Note += note
 	}
@@ -131,11 +159,15 @@ func runSessF(c Case) Obs {
 
 // ---- Substrate ------------------------------------------------------------------------------------------
 
-func subFaultyRelayer(c Case, mask []int) ([]SessObs, string) {
+func subFaultyRelayer(c Case, mask []int, lat []int) ([]SessObs, string) {
 	ps, chain := sessProposals(c)
 	chain.FailQuery = failSet(mask)
 	host, cm, fetcher, coord := newCoordinator()
-	ex := subexec.NewExecutor(host, cm, coord, fk.SubPallet{Chain: chain}, fetcher, nil, &sync.RWMutex{})
+	var pl subexec.BridgePallet = fk.SubPallet{Chain: chain}
+	if script := newLatScript(lat); script != nil {
+		pl = latSubPallet{SubPallet: fk.SubPallet{Chain: chain}, lat: script}
+	}
+	ex := subexec.NewExecutor(host, cm, coord, pl, fetcher, nil, &sync.RWMutex{})
 	g := newGate(1) // Execute hashes (and signs) at most once, in its own goroutine
 	chain.OnHash = g.onHash
 	cm.OnSession = g.onSession
@@ -146,8 +178,9 @@ func subFaultyRelayer(c Case, mask []int) ([]SessObs, string) {
 
 func runSubF(c Case) Obs {
 	var o Obs
-	for _, mask := range relayerMasks(c) {
-		run, note := subFaultyRelayer(c, mask)
+	lats := relayerLats(c)
+	for k, mask := range relayerMasks(c) {
+		run, note := subFaultyRelayer(c, mask, lats[k])
 		o.FRuns = append(o.FRuns, run)
 		o.Note += note
 	}
@@ -163,12 +196,14 @@ type lookupStore struct {
 	n        int
 	fail     map[int]bool
 	executed map[uint64]bool
+	lat      *latScript // latency.go: the look-up for deposit nonce i is answered as scripted
 }
 
 var errLookup = errors.New("C19 runner: proposal status look-up failed")
 
 func (s *lookupStore) StorePropStatus(uint8, uint8, uint64, store.PropStatus) error { return nil }
 func (s *lookupStore) PropStatus(_ uint8, _ uint8, nonce uint64) (store.PropStatus, error) {
+	s.lat.wait(int(nonce))
 	s.mu.Lock()
 	defer s.mu.Unlock()
 	q := s.n
@@ -182,7 +217,7 @@ func (s *lookupStore) PropStatus(_ uint8, _ uint8, nonce uint64) (store.PropStat
 	return store.MissingProp, nil
 }
 
-func btcFaultyRelayer(c Case, mask []int) []BGroup {
+func btcFaultyRelayer(c Case, mask []int, lat []int) []BGroup {
 	ids := creditIDs(c)
 	res, _ := scanstack.BtcResourcesFull(ids)
 	resources := map[[32]byte]btcconfig.Resource{}
@@ -192,7 +227,7 @@ func btcFaultyRelayer(c Case, mask []int) []BGroup {
 		byAddr[r.Address.String()] = hex.EncodeToString(r.ResourceID[:])
 	}
 	ps := make([]*proposal.Proposal, len(c.BProps))
-	st := &lookupStore{fail: failSet(mask), executed: map[uint64]bool{}}
+	st := &lookupStore{fail: failSet(mask), executed: map[uint64]bool{}, lat: newLatScript(lat)}
 	for i, ri := range c.BProps {
 		ps[i] = proposal.NewProposal(1, 2, btcexec.BtcTransferProposalData{
 			Amount: 1000, Recipient: bexecRecipient, DepositNonce: uint64(i), ResourceId: ids[ri],
@@ -230,8 +265,9 @@ func btcFaultyRelayer(c Case, mask []int) []BGroup {
 
 func runBexecF(c Case) Obs {
 	var o Obs
-	for _, mask := range relayerMasks(c) {
-		o.FBRuns = append(o.FBRuns, btcFaultyRelayer(c, mask))
+	lats := relayerLats(c)
+	for k, mask := range relayerMasks(c) {
+		o.FBRuns = append(o.FBRuns, btcFaultyRelayer(c, mask, lats[k]))
 	}
 	return o
 }
